@@ -571,17 +571,80 @@ Qed.
 Print Assumptions exact_plateau_refuted.
 
 (* ---------- the conversions built on the delta-min iterator ---------- *)
-Lemma twi_split : forall keep l i, exists r, l = take_while_idx keep i l ++ r /\
-  match r with [] => True | e :: _ => keep (i + length (take_while_idx keep i l))%nat e = false end.
+(* the repaired take_while: the flag "a non-zero distance has been seen" after a list of kept elements *)
+Definition nz_seen (s : bool) (p : list (N * N)) : bool := s || existsb (fun e => negb (snd e =? 0)) p.
+
+Lemma nz_seen_cons : forall s x p, nz_seen (s || negb (snd x =? 0)) p = nz_seen s (x :: p).
+Proof. intros s x p. unfold nz_seen. cbn [existsb]. rewrite orb_assoc. reflexivity. Qed.
+
+Lemma nz_seen_false : forall p, nz_seen false p = false -> forall e, In e p -> snd e = 0.
 Proof.
-  intros keep l. induction l as [|x l IH]; intros i; cbn [take_while_idx].
+  intros p H e He. unfold nz_seen in H. cbn [orb] in H.
+  destruct (N.eqb_spec (snd e) 0) as [E|E]; [exact E|]. exfalso.
+  assert (Hx : existsb (fun e => negb (snd e =? 0)) p = true).
+  { apply existsb_exists. exists e. split; [exact He|]. destruct (N.eqb_spec (snd e) 0); [contradiction | reflexivity]. }
+  congruence.
+Qed.
+
+Lemma nz_seen_true : forall p, nz_seen false p = true -> exists e, In e p /\ 0 < snd e.
+Proof.
+  intros p H. unfold nz_seen in H. cbn [orb] in H. apply existsb_exists in H. destruct H as [e [He Hs]].
+  exists e. split; [exact He|]. destruct (N.eqb_spec (snd e) 0); [discriminate | lia].
+Qed.
+
+(* the result is a prefix; the element after it (if any) fails the old condition and comes after a
+   non-zero distance *)
+Lemma twn_split : forall keep l i s, exists r, l = take_while_nz keep i s l ++ r /\
+  match r with
+  | [] => True
+  | e :: _ => keep (i + length (take_while_nz keep i s l))%nat e = false /\
+              nz_seen s (take_while_nz keep i s l) = true
+  end.
+Proof.
+  intros keep l. induction l as [|x l IH]; intros i s; cbn [take_while_nz].
   - exists []. split; [reflexivity | exact I].
-  - destruct (keep i x) eqn:E.
-    + destruct (IH (S i)) as [r [H1 H2]]. exists r. split; [cbn [app]; f_equal; exact H1|].
+  - destruct (keep i x || negb s) eqn:E.
+    + destruct (IH (S i) (s || negb (snd x =? 0))) as [r [H1 H2]]. exists r. split; [cbn [app]; f_equal; exact H1|].
       destruct r as [|e r]; [exact I|]. cbn [length].
-      replace (i + S (length (take_while_idx keep (S i) l)))%nat with (S i + length (take_while_idx keep (S i) l))%nat by lia.
-      exact H2.
-    + exists (x :: l). split; [reflexivity|]. cbn [length]. rewrite Nat.add_0_r. exact E.
+      rewrite Nat.add_succ_r, <- nz_seen_cons. exact H2.
+    + exists (x :: l). apply orb_false_elim in E. destruct E as [E1 E2]. split; [reflexivity|].
+      cbn [length]. rewrite Nat.add_0_r. split; [exact E1|].
+      destruct s; [reflexivity | discriminate].
+Qed.
+
+(* every kept element satisfies the old condition or is preceded by zero distances only *)
+Lemma twn_all : forall keep l i s k, (k < length (take_while_nz keep i s l))%nat ->
+  keep (i + k)%nat (nth k (take_while_nz keep i s l) (0, 0)) = true \/
+  nz_seen s (firstn k (take_while_nz keep i s l)) = false.
+Proof.
+  intros keep l. induction l as [|x l IH]; intros i s k Hk; cbn [take_while_nz] in *; [cbn [length] in Hk; lia|].
+  destruct (keep i x || negb s) eqn:E; [|cbn [length] in Hk; lia].
+  destruct k as [|k].
+  - cbn [nth firstn]. rewrite Nat.add_0_r. unfold nz_seen. cbn [existsb]. rewrite orb_false_r.
+    apply orb_true_iff in E. destruct E as [E|E]; [left; exact E|].
+    right. destruct s; [discriminate | reflexivity].
+  - cbn [nth firstn]. rewrite <- nz_seen_cons. replace (i + S k)%nat with (S i + k)%nat by lia.
+    apply IH. cbn [length] in Hk. lia.
+Qed.
+
+Lemma nz_seen_false_nth : forall p i k, nz_seen false (firstn i p) = false -> (k < i)%nat -> (i <= length p)%nat ->
+  nthN (map snd p) k = 0.
+Proof.
+  intros p i k H Hk Hi. unfold nthN. rewrite (nth_map_N snd p (0, 0)) by lia.
+  apply (nz_seen_false (firstn i p) H).
+  rewrite <- (nth_firstn_lt i p k (0, 0)) by lia. apply nth_In. rewrite firstn_length. lia.
+Qed.
+
+(* the take_while stops strictly inside the list: the shape of the cut *)
+Lemma twn_found : forall keep l, Nat.ltb (length (take_while_nz keep 0 false l)) (length l) = true ->
+  exists e r, l = take_while_nz keep 0 false l ++ e :: r /\
+    keep (length (take_while_nz keep 0 false l)) e = false /\
+    nz_seen false (take_while_nz keep 0 false l) = true.
+Proof.
+  intros keep l H. apply Nat.ltb_lt in H. destruct (twn_split keep l 0 false) as [r [Hr Hhead]].
+  destruct r as [|e r].
+  - exfalso. rewrite app_nil_r in Hr. rewrite <- Hr in H. lia.
+  - exists e, r. cbn [Nat.add] in Hhead. destruct Hhead as [H1 H2]. split; [exact Hr|]. split; assumption.
 Qed.
 
 (* every prefix of the iterator, read as a vector, is exact and non-decreasing *)
@@ -666,16 +729,16 @@ Qed.
 Print Assumptions dmins_enough_found.
 
 Lemma conv_split : forall ab h0 en keep,
-  take_while_idx keep 0 (dmins_enough ab h0 en) = [] \/
-  exists h r, dmins_upto ab h = take_while_idx keep 0 (dmins_enough ab h0 en) ++ r.
+  take_while_nz keep 0 false (dmins_enough ab h0 en) = [] \/
+  exists h r, dmins_upto ab h = take_while_nz keep 0 false (dmins_enough ab h0 en) ++ r.
 Proof.
   intros ab h0 en keep. destruct (dmins_enough_char ab h0 en) as [->|[h [-> _]]].
   - left. reflexivity.
-  - right. destruct (twi_split keep (dmins_upto ab h) 0) as [r [Hr _]]. exists h, r. exact Hr.
+  - right. destruct (twn_split keep (dmins_upto ab h) 0 false) as [r [Hr _]]. exists h, r. exact Hr.
 Qed.
 
 Lemma conv_exact : forall ab h0 en keep, wf_ab ab -> steps_exact_class ab ->
-  exact_dmin_of (na ab) (map snd (take_while_idx keep 0 (dmins_enough ab h0 en))).
+  exact_dmin_of (na ab) (map snd (take_while_nz keep 0 false (dmins_enough ab h0 en))).
 Proof.
   intros ab h0 en keep Hwf Hc. destruct (conv_split ab h0 en keep) as [->|[h [r E]]].
   - intros i Hi. cbn [map length] in Hi. lia.
@@ -683,7 +746,7 @@ Proof.
 Qed.
 
 Lemma conv_nondecreasing : forall ab h0 en keep, wf_ab ab -> steps_exact_class ab ->
-  nondecreasing (map snd (take_while_idx keep 0 (dmins_enough ab h0 en))).
+  nondecreasing (map snd (take_while_nz keep 0 false (dmins_enough ab h0 en))).
 Proof.
   intros ab h0 en keep Hwf Hc. destruct (conv_split ab h0 en keep) as [->|[h [r E]]].
   - intros i Hi. cbn [map length] in Hi. lia.
@@ -781,15 +844,6 @@ Qed.
 Print Assumptions curve_from_ab_exact_below_last.
 
 (* ---------- the link to the doubling loop, with the explicit hypothesis that it found a horizon ---------- *)
-Lemma twi_all : forall keep l i k, (k < length (take_while_idx keep i l))%nat ->
-  keep (i + k)%nat (nth k (take_while_idx keep i l) (0, 0)) = true.
-Proof.
-  intros keep l. induction l as [|x l IH]; intros i k Hk; cbn [take_while_idx] in *; [cbn [length] in Hk; lia|].
-  destruct (keep i x) eqn:E; [|cbn [length] in Hk; lia].
-  destruct k as [|k]; cbn [nth]; [rewrite Nat.add_0_r; exact E|].
-  replace (i + S k)%nat with (S i + k)%nat by lia. apply IH. cbn [length] in Hk. lia.
-Qed.
-
 Lemma dmins_snd_mono : forall ab h i j, wf_ab ab -> steps_exact_class ab -> (i <= j)%nat ->
   (j < length (dmins_upto ab h))%nat ->
   snd (nth i (dmins_upto ab h) (0, 0)) <= snd (nth j (dmins_upto ab h) (0, 0)).
@@ -801,117 +855,138 @@ Proof.
   rewrite !(nth_map_N snd _ (0, 0)) in H by lia. exact H.
 Qed.
 
-Definition until_enough (hz : N) (l : list (N * N)) : bool :=
-  existsb (fun e => negb (snd e <=? hz)) l && Nat.leb 3 (length l).
+(* [enough] of the doubling loop: the repaired take_while stops strictly inside the cut of the iterator *)
 Definition until_keep (hz : N) (i : nat) (e : N * N) : bool := (snd e <=? hz) || Nat.ltb i 2.
-Definition njobs_enough (n : N) (l : list (N * N)) : bool :=
-  existsb (fun e => negb (fst e <=? n)) l && Nat.leb 3 (length l).
+Definition until_enough (hz : N) (l : list (N * N)) : bool :=
+  Nat.ltb (length (take_while_nz (until_keep hz) 0 false l)) (length l).
 Definition njobs_keep (n : N) (i : nat) (e : N * N) : bool := (fst e <=? n) || Nat.ltb i 2.
+Definition njobs_enough (n : N) (l : list (N * N)) : bool :=
+  Nat.ltb (length (take_while_nz (njobs_keep n) 0 false l)) (length l).
 
 Lemma curve_from_ab_until_unfold : forall ab hz, curve_from_ab_until ab hz =
-  map snd (take_while_idx (until_keep hz) 0 (dmins_enough ab (hz + 2) (until_enough hz))).
+  map snd (take_while_nz (until_keep hz) 0 false (dmins_enough ab (hz + 2) (until_enough hz))).
 Proof. reflexivity. Qed.
 Lemma curve_from_ab_unfold : forall ab n, curve_from_ab ab n =
-  map snd (take_while_idx (njobs_keep n) 0 (dmins_enough ab 4 (njobs_enough n))).
+  map snd (take_while_nz (njobs_keep n) 0 false (dmins_enough ab 4 (njobs_enough n))).
 Proof. reflexivity. Qed.
 
+(* a cut of the iterator inside which the repaired take_while stops: the kept vector ends in a positive
+   distance *)
+Lemma conv_last_pos : forall ab h keep, wf_ab ab -> steps_exact_class ab ->
+  nz_seen false (take_while_nz keep 0 false (dmins_upto ab h)) = true ->
+  0 < lastN (map snd (take_while_nz keep 0 false (dmins_upto ab h))).
+Proof.
+  intros ab h keep Hwf Hc Hseen. destruct (twn_split keep (dmins_upto ab h) 0 false) as [r [Hr _]].
+  pose proof (dmins_prefix_nondecreasing ab h _ r Hwf Hc Hr) as Hnd.
+  destruct (nz_seen_true _ Hseen) as [e [He Hpos]].
+  pose proof (le_lastN _ (snd e) Hnd (in_map snd _ e He)). lia.
+Qed.
+
 (* from_arrival_bound_until: when the loop finds a horizon, the vector has at least two entries, covers
-   every job count that fits into a window of length hz + 1, and records no distance beyond hz after the
-   first two entries *)
+   every job count that fits into a window of length hz + 1, ends in a positive distance, and an entry
+   after the first two exceeds hz only if all entries before it are zero (the repair: the vector is
+   extended until it contains a non-zero distance) *)
 Theorem curve_from_ab_until_covers : forall ab hz j, wf_ab ab -> steps_exact_class ab ->
   is_never ab = false -> (j < 64)%nat ->
   until_enough hz (dmins_upto ab (N.max (hz + 2) 1 * 2 ^ N.of_nat j)) = true ->
   (2 <= length (curve_from_ab_until ab hz))%nat /\
   na ab (hz + 1) <= lenN (curve_from_ab_until ab hz) + 1 /\
-  (forall i, (2 <= i)%nat -> (i < length (curve_from_ab_until ab hz))%nat -> nthN (curve_from_ab_until ab hz) i <= hz).
+  0 < lastN (curve_from_ab_until ab hz) /\
+  (forall i, (2 <= i)%nat -> (i < length (curve_from_ab_until ab hz))%nat ->
+     nthN (curve_from_ab_until ab hz) i <= hz \/
+     (forall k, (k < i)%nat -> nthN (curve_from_ab_until ab hz) k = 0)).
 Proof.
   intros ab hz j Hwf Hc Hn Hj Hen.
   destruct (dmins_enough_found ab (hz + 2) (until_enough hz) j Hn Hj Hen) as [h [El Hen']].
   rewrite curve_from_ab_until_unfold, El. clear Hen El j Hj.
   set (l := dmins_upto ab h) in *.
-  destruct (twi_split (until_keep hz) l 0) as [r [Hr Hhead]].
-  set (p := take_while_idx (until_keep hz) 0 l) in *.
-  pose proof (twi_all (until_keep hz) l 0) as Hall. fold p in Hall.
-  unfold until_enough in Hen'. apply andb_prop in Hen'. destruct Hen' as [Hex Hlen].
-  apply Nat.leb_le in Hlen. apply existsb_exists in Hex. destruct Hex as [e0 [He0 Hbig]].
-  destruct (In_nth l e0 (0, 0) He0) as [k0 [Hk0 Ek0]].
-  assert (Hbig' : hz < snd (nth k0 l (0, 0))) by (rewrite Ek0; lia).
-  assert (Hlp : length l = (length p + length r)%nat) by (rewrite Hr at 1; apply app_length).
+  destruct (twn_found (until_keep hz) l Hen') as [e [r [Hr [Hhead Hseen]]]].
+  pose proof (twn_all (until_keep hz) l 0 false) as Hall.
+  pose proof (conv_last_pos ab h (until_keep hz) Hwf Hc Hseen) as Hlast. fold l in Hlast.
+  set (p := take_while_nz (until_keep hz) 0 false l) in *.
+  assert (Hlp : length l = (length p + S (length r))%nat) by (rewrite Hr at 1; rewrite app_length; reflexivity).
   assert (Hnth : forall k, (k < length p)%nat -> nth k p (0, 0) = nth k l (0, 0)).
   { intros k Hk. rewrite Hr. symmetry. apply app_nth1. exact Hk. }
-  (* a kept entry at an index >= 2 is within the horizon *)
-  assert (Hkept : forall k, (2 <= k)%nat -> (k < length p)%nat -> snd (nth k l (0, 0)) <= hz).
-  { intros k Hk2 Hkp. pose proof (Hall k Hkp) as Hk. rewrite Hnth in Hk by exact Hkp.
-    unfold until_keep in Hk. cbn [Nat.add] in Hk. destruct (Nat.ltb_spec k 2); [lia|]. lia. }
-  destruct r as [|e r].
-  - exfalso. cbn [length] in Hlp.
-    destruct (Nat.le_gt_cases 2 k0) as [H2|H2].
-    + specialize (Hkept k0 H2 ltac:(lia)). lia.
-    + specialize (Hkept 2%nat (le_n _) ltac:(lia)).
-      pose proof (dmins_snd_mono ab h k0 2 Hwf Hc ltac:(lia) ltac:(fold l; lia)). fold l in H. lia.
-  - cbn [Nat.add] in Hhead. unfold until_keep in Hhead.
-    assert (He : e = nth (length p) l (0, 0)).
-    { rewrite Hr, app_nth2, Nat.sub_diag by lia. reflexivity. }
-    assert (Hp2 : (2 <= length p)%nat) by (destruct (Nat.ltb_spec (length p) 2); lia).
-    assert (Hes : hz < snd e) by lia.
-    cbn [length] in Hlp.
-    pose proof (dmins_fst_nth ab h (length p) ltac:(fold l; lia)) as Hfst. fold l in Hfst. rewrite <- He in Hfst.
-    assert (Hin : In e l) by (rewrite He; apply nth_In; lia).
-    destruct e as [m x]. cbn [fst snd] in *. apply dmins_dual in Hin; [|exact Hwf | exact Hc].
-    rewrite map_length. unfold lenN. rewrite map_length. split; [exact Hp2|]. split.
-    + pose proof (na_mono ab Hwf (hz + 1) x ltac:(lia)). lia.
-    + intros i Hi2 Hip. unfold nthN. rewrite (nth_map_N snd p (0, 0)) by exact Hip.
-      rewrite Hnth by exact Hip. apply Hkept; assumption.
+  unfold until_keep in Hhead.
+  assert (He : e = nth (length p) l (0, 0)).
+  { rewrite Hr, app_nth2, Nat.sub_diag by lia. reflexivity. }
+  assert (Hp2 : (2 <= length p)%nat) by (destruct (Nat.ltb_spec (length p) 2); lia).
+  assert (Hes : hz < snd e) by lia.
+  pose proof (dmins_fst_nth ab h (length p) ltac:(fold l; lia)) as Hfst. fold l in Hfst. rewrite <- He in Hfst.
+  assert (Hin : In e l) by (rewrite He; apply nth_In; lia).
+  destruct e as [m x]. cbn [fst snd] in *. apply dmins_dual in Hin; [|exact Hwf | exact Hc].
+  rewrite map_length. unfold lenN. rewrite map_length. split; [exact Hp2|]. split; [|split; [exact Hlast|]].
+  - pose proof (na_mono ab Hwf (hz + 1) x ltac:(lia)). lia.
+  - intros i Hi2 Hip. destruct (Hall i Hip) as [Hk|Hz].
+    + left. fold p in Hk. cbn [Nat.add] in Hk. unfold until_keep in Hk.
+      unfold nthN. rewrite (nth_map_N snd p (0, 0)) by exact Hip.
+      destruct (Nat.ltb_spec i 2); [lia|]. lia.
+    + right. intros k Hk. fold p in Hz. apply (nz_seen_false_nth p i k Hz Hk). lia.
 Qed.
 Print Assumptions curve_from_ab_until_covers.
 
-(* from_arrival_bound: when the loop finds a horizon, the vector holds exactly the job counts
-   2 .. max(njobs, 3) *)
+(* from_arrival_bound: when the loop finds a horizon, the vector is the shortest prefix of the iterator
+   that holds at least the job counts 2 .. max(njobs, 3) AND ends in a positive distance *)
 Theorem curve_from_ab_length : forall ab n j, wf_ab ab -> steps_exact_class ab ->
   is_never ab = false -> (j < 64)%nat ->
   njobs_enough n (dmins_upto ab (N.max 4 1 * 2 ^ N.of_nat j)) = true ->
-  lenN (curve_from_ab ab n) = N.max 2 (n - 1).
+  N.max 2 (n - 1) <= lenN (curve_from_ab ab n) /\
+  0 < lastN (curve_from_ab ab n) /\
+  (forall k, N.max 2 (n - 1) <= N.of_nat k -> (k < length (curve_from_ab ab n))%nat ->
+     nthN (curve_from_ab ab n) (k - 1) = 0).
 Proof.
   intros ab n j Hwf Hc Hn Hj Hen.
   destruct (dmins_enough_found ab 4 (njobs_enough n) j Hn Hj Hen) as [h [El Hen']].
   rewrite curve_from_ab_unfold, El. clear Hen El j Hj.
   set (l := dmins_upto ab h) in *.
-  destruct (twi_split (njobs_keep n) l 0) as [r [Hr Hhead]].
-  set (p := take_while_idx (njobs_keep n) 0 l) in *.
-  pose proof (twi_all (njobs_keep n) l 0) as Hall. fold p in Hall.
-  unfold njobs_enough in Hen'. apply andb_prop in Hen'. destruct Hen' as [Hex Hlen].
-  apply Nat.leb_le in Hlen. apply existsb_exists in Hex. destruct Hex as [e0 [He0 Hbig]].
-  destruct (In_nth l e0 (0, 0) He0) as [k0 [Hk0 Ek0]].
-  assert (Hbig' : n < fst (nth k0 l (0, 0))) by (rewrite Ek0; lia).
-  unfold l in Hbig'. rewrite (dmins_fst_nth ab h k0 Hk0) in Hbig'.
-  assert (Hlp : length l = (length p + length r)%nat) by (rewrite Hr at 1; apply app_length).
+  destruct (twn_found (njobs_keep n) l Hen') as [e [r [Hr [Hhead Hseen]]]].
+  pose proof (twn_all (njobs_keep n) l 0 false) as Hall.
+  pose proof (conv_last_pos ab h (njobs_keep n) Hwf Hc Hseen) as Hlast. fold l in Hlast.
+  set (p := take_while_nz (njobs_keep n) 0 false l) in *.
+  assert (Hlp : length l = (length p + S (length r))%nat) by (rewrite Hr at 1; rewrite app_length; reflexivity).
   assert (Hnth : forall k, (k < length p)%nat -> nth k p (0, 0) = nth k l (0, 0)).
   { intros k Hk. rewrite Hr. symmetry. apply app_nth1. exact Hk. }
-  assert (Hkept : forall k, (2 <= k)%nat -> (k < length p)%nat -> 2 + N.of_nat k <= n).
-  { intros k Hk2 Hkp. pose proof (Hall k Hkp) as Hk. rewrite Hnth in Hk by exact Hkp.
-    unfold njobs_keep in Hk. cbn [Nat.add] in Hk.
-    unfold l in Hk. rewrite (dmins_fst_nth ab h k) in Hk by (fold l; lia).
-    destruct (Nat.ltb_spec k 2); [lia|]. lia. }
-  unfold lenN. rewrite map_length.
-  destruct r as [|e r].
-  - exfalso. cbn [length] in Hlp.
-    destruct (Nat.le_gt_cases 2 k0) as [H2|H2].
-    + specialize (Hkept k0 H2 ltac:(lia)). lia.
-    + specialize (Hkept 2%nat (le_n _) ltac:(lia)). lia.
-  - cbn [Nat.add] in Hhead. unfold njobs_keep in Hhead.
-    assert (He : e = nth (length p) l (0, 0)).
-    { rewrite Hr, app_nth2, Nat.sub_diag by lia. reflexivity. }
-    cbn [length] in Hlp.
-    pose proof (dmins_fst_nth ab h (length p) ltac:(fold l; lia)) as Hfst. fold l in Hfst. rewrite <- He in Hfst.
-    assert (Hp2 : (2 <= length p)%nat) by (destruct (Nat.ltb_spec (length p) 2); lia).
-    assert (Hes : n < fst e) by lia.
-    destruct (Nat.eq_dec (length p) 2) as [E2|NE2]; [lia|].
-    specialize (Hkept (length p - 1)%nat ltac:(lia) ltac:(lia)). lia.
+  unfold njobs_keep in Hhead.
+  assert (He : e = nth (length p) l (0, 0)).
+  { rewrite Hr, app_nth2, Nat.sub_diag by lia. reflexivity. }
+  pose proof (dmins_fst_nth ab h (length p) ltac:(fold l; lia)) as Hfst. fold l in Hfst. rewrite <- He in Hfst.
+  assert (Hp2 : (2 <= length p)%nat) by (destruct (Nat.ltb_spec (length p) 2); lia).
+  assert (Hes : n < fst e) by lia.
+  rewrite map_length. unfold lenN. rewrite map_length. split; [lia|]. split; [exact Hlast|].
+  intros k Hk Hkp. destruct (Hall k Hkp) as [Hkk|Hz].
+  - exfalso. fold p in Hkk. cbn [Nat.add] in Hkk. rewrite Hnth in Hkk by exact Hkp.
+    unfold njobs_keep in Hkk. unfold l in Hkk. rewrite (dmins_fst_nth ab h k) in Hkk by (fold l; lia).
+    destruct (Nat.ltb_spec k 2); lia.
+  - fold p in Hz. apply (nz_seen_false_nth p k (k - 1) Hz); lia.
 Qed.
 Print Assumptions curve_from_ab_length.
 
-(* usability of the result: the last entry is positive as soon as the source admits no more simultaneous
-   events than the vector has entries *)
+(* an entry 0 at index i means that i + 2 events can arrive simultaneously *)
+Lemma exact_zero_entry : forall f d i, exact_dmin_of f d -> (i < length d)%nat -> nthN d i = 0 ->
+  N.of_nat i + 2 <= f 1.
+Proof.
+  intros f d i Hex Hi E. destruct (Hex i Hi) as [H _]. rewrite E in H. change (0 + 1) with 1 in H. exact H.
+Qed.
+
+(* the length before the repair, max 2 (n - 1), is kept whenever the entry for max(n, 3) events is
+   already positive, i.e. fewer than max(n, 3) events can arrive simultaneously *)
+Corollary curve_from_ab_length_old : forall ab n j, wf_ab ab -> steps_exact_class ab ->
+  is_never ab = false -> (j < 64)%nat ->
+  njobs_enough n (dmins_upto ab (N.max 4 1 * 2 ^ N.of_nat j)) = true ->
+  na ab 1 < N.max n 3 ->
+  lenN (curve_from_ab ab n) = N.max 2 (n - 1).
+Proof.
+  intros ab n j Hwf Hc Hn Hj Hen H1.
+  destruct (curve_from_ab_length ab n j Hwf Hc Hn Hj Hen) as [Hlen [_ Hz]].
+  destruct (N.eq_dec (lenN (curve_from_ab ab n)) (N.max 2 (n - 1))) as [E|NE]; [exact E|]. exfalso.
+  unfold lenN in *. set (k := N.to_nat (N.max 2 (n - 1))).
+  specialize (Hz k ltac:(lia) ltac:(lia)).
+  pose proof (exact_zero_entry (na ab) _ (k - 1)%nat (curve_from_ab_exact_gen ab n Hwf Hc) ltac:(lia) Hz). lia.
+Qed.
+Print Assumptions curve_from_ab_length_old.
+
+(* usability of a vector that is not extended: the last entry is positive as soon as the source admits
+   no more simultaneous events than the vector has entries *)
 Lemma exact_last_pos : forall f d, exact_dmin_of f d -> d <> [] -> f 1 <= lenN d -> 0 < lastN d.
 Proof.
   intros f d Hex Hne Hf.
@@ -921,43 +996,79 @@ Proof.
   unfold lenN in Hf. lia.
 Qed.
 
+(* the repaired conversions: whenever the loop finds a horizon the result is a well-formed delta-min
+   vector (non-empty, non-decreasing, last entry positive), whatever the burst size of the source *)
 Corollary curve_from_ab_until_wf : forall ab hz j, wf_ab ab -> steps_exact_class ab ->
   is_never ab = false -> (j < 64)%nat ->
   until_enough hz (dmins_upto ab (N.max (hz + 2) 1 * 2 ^ N.of_nat j)) = true ->
-  na ab 1 <= 2 -> wf_dmin (curve_from_ab_until ab hz).
+  wf_dmin (curve_from_ab_until ab hz).
 Proof.
-  intros ab hz j Hwf Hc Hn Hj Hen H1.
-  destruct (curve_from_ab_until_covers ab hz j Hwf Hc Hn Hj Hen) as [Hlen _].
-  assert (Hne : curve_from_ab_until ab hz <> []) by (intros E; rewrite E in Hlen; cbn [length] in Hlen; lia).
-  split; [exact Hne|]. split; [apply curve_from_ab_until_nondecreasing; assumption|].
-  apply (exact_last_pos (na ab)); [apply curve_from_ab_until_exact_gen; assumption | exact Hne|].
-  unfold lenN. lia.
+  intros ab hz j Hwf Hc Hn Hj Hen.
+  destruct (curve_from_ab_until_covers ab hz j Hwf Hc Hn Hj Hen) as [Hlen [_ [Hlast _]]].
+  split; [intros E; rewrite E in Hlen; cbn [length] in Hlen; lia|].
+  split; [apply curve_from_ab_until_nondecreasing; assumption | exact Hlast].
 Qed.
 Print Assumptions curve_from_ab_until_wf.
 
 Corollary curve_from_ab_wf : forall ab n j, wf_ab ab -> steps_exact_class ab ->
   is_never ab = false -> (j < 64)%nat ->
   njobs_enough n (dmins_upto ab (N.max 4 1 * 2 ^ N.of_nat j)) = true ->
-  na ab 1 <= 2 -> wf_dmin (curve_from_ab ab n).
+  wf_dmin (curve_from_ab ab n).
 Proof.
-  intros ab n j Hwf Hc Hn Hj Hen H1.
-  pose proof (curve_from_ab_length ab n j Hwf Hc Hn Hj Hen) as Hlen.
-  assert (Hne : curve_from_ab ab n <> []) by (intros E; rewrite E in Hlen; unfold lenN in Hlen; cbn [length] in Hlen; lia).
-  split; [exact Hne|]. split; [apply curve_from_ab_nondecreasing; assumption|].
-  apply (exact_last_pos (na ab)); [apply curve_from_ab_exact_gen; assumption | exact Hne|]. lia.
+  intros ab n j Hwf Hc Hn Hj Hen.
+  destruct (curve_from_ab_length ab n j Hwf Hc Hn Hj Hen) as [Hlen [Hlast _]].
+  split; [intros E; rewrite E in Hlen; unfold lenN in Hlen; cbn [length] in Hlen; lia|].
+  split; [apply curve_from_ab_nondecreasing; assumption | exact Hlast].
 Qed.
 Print Assumptions curve_from_ab_wf.
 
-(* finding: a source that releases three or more events at once (jitter >= 2 periods) turned into a
-   short Curve yields a vector whose last entry is 0; number_arrivals on it divides by zero in the crate *)
-Theorem curve_from_ab_zero_last_refuted : exists ab n, wf_ab ab /\ steps_exact_class ab /\
-  curve_from_ab ab n <> [] /\ ~ wf_dmin (curve_from_ab ab n).
+(* regression for the repaired finding: a source that releases three or more events at once (jitter >= 2
+   periods) turned into a short Curve used to yield a vector whose last entry is 0 (number_arrivals on it
+   divides by zero in the crate); the repaired conversions extend it to the first positive distance.
+   The first conjunct instantiates the general theorem (the doubling loop stops at horizon 4 * 2^1);
+   the second is checked point by point up to the stated bound and, below, for every delta *)
+Theorem curve_from_ab_zero_last_repaired :
+  wf_dmin (curve_from_ab (Sporadic 3 7) 3) /\
+  forall delta, delta <= 40 -> na (Sporadic 3 7) delta <= curve_na (curve_from_ab (Sporadic 3 7) 3) delta.
 Proof.
-  exists (Sporadic 3 7), 3. split; [cbn; lia|]. split; [exact I|]. split.
-  - vm_compute. discriminate.
-  - intros [_ [_ H]]. vm_compute in H. discriminate.
+  split.
+  - apply (curve_from_ab_wf (Sporadic 3 7) 3 1); [cbn; lia | exact I | reflexivity | lia | vm_compute; reflexivity].
+  - intros delta Hd.
+    assert (H : forallb (fun d => na (Sporadic 3 7) d <=? curve_na (curve_from_ab (Sporadic 3 7) 3) d) (rangeN 0 41) = true)
+      by (vm_compute; reflexivity).
+    rewrite forallb_forall in H. apply N.leb_le. apply H. apply rangeN_In. lia.
 Qed.
-Print Assumptions curve_from_ab_zero_last_refuted.
+Print Assumptions curve_from_ab_zero_last_repaired.
+
+Theorem curve_from_ab_until_zero_last_repaired :
+  wf_dmin (curve_from_ab_until (Sporadic 3 7) 0) /\
+  forall delta, delta <= 40 -> na (Sporadic 3 7) delta <= curve_na (curve_from_ab_until (Sporadic 3 7) 0) delta.
+Proof.
+  split.
+  - apply (curve_from_ab_until_wf (Sporadic 3 7) 0 2); [cbn; lia | exact I | reflexivity | lia | vm_compute; reflexivity].
+  - intros delta Hd.
+    assert (H : forallb (fun d => na (Sporadic 3 7) d <=? curve_na (curve_from_ab_until (Sporadic 3 7) 0) d) (rangeN 0 41) = true)
+      by (vm_compute; reflexivity).
+    rewrite forallb_forall in H. apply N.leb_le. apply H. apply rangeN_In. lia.
+Qed.
+Print Assumptions curve_from_ab_until_zero_last_repaired.
+
+(* the same without a bound, from the general theorems *)
+Theorem curve_from_ab_zero_last_repaired_all :
+  curve_from_ab (Sporadic 3 7) 3 = [0; 0; 2] /\ curve_from_ab_until (Sporadic 3 7) 0 = [0; 0; 2] /\
+  (forall delta, na (Sporadic 3 7) delta <= curve_na (curve_from_ab (Sporadic 3 7) 3) delta) /\
+  (forall delta, na (Sporadic 3 7) delta <= curve_na (curve_from_ab_until (Sporadic 3 7) 0) delta).
+Proof.
+  assert (Hwf : wf_ab (Sporadic 3 7)) by (cbn; lia).
+  assert (Hsub : forall a b, na (Sporadic 3 7) (a + b) <= na (Sporadic 3 7) a + na (Sporadic 3 7) b)
+    by (intros a b; apply sporadic_subadditive; lia).
+  split; [vm_compute; reflexivity|]. split; [vm_compute; reflexivity|]. split.
+  - destruct curve_from_ab_zero_last_repaired as [[Hne [_ Hl]] _].
+    apply curve_from_ab_dominates; (assumption || exact I).
+  - destruct curve_from_ab_until_zero_last_repaired as [[Hne [_ Hl]] _].
+    apply curve_from_ab_until_dominates; (assumption || exact I).
+Qed.
+Print Assumptions curve_from_ab_zero_last_repaired_all.
 
 (* From<Periodic> for Curve: exact everywhere *)
 Theorem curve_of_periodic_exact : forall T, 1 <= T -> forall delta,
